@@ -1,3 +1,20 @@
 // Package vsim is a small cycle-accurate interpreter for the Verilog subset
-// that the BondMachine generators emit. See /verif/DESIGN.md §2.3.
+// that the BondMachine generators emit (processors, architecture wrappers,
+// ROM/RAM, the bondmachine top-level netlist, bmstack stacks and queues).
+// See /verif/DESIGN.md §2.3 and README.md in this directory.
+//
+// Typical use:
+//
+//	d, err := vsim.LoadDir(dir, "bondmachine_tb.v") // or Parse / Add
+//	s, err := vsim.Elaborate(d, "bondmachine")      // strict: *DesignError / *UnsupportedError
+//	s.Set("reset", 1); s.Eval(); s.Set("reset", 0); s.Eval()
+//	for i := 0; i < n; i++ {
+//		s.Set("i0", v); s.Set("i0_valid", 1)
+//		s.Tick("clk")
+//		if s.Assigned("a0_inst.p0_instance._pc") { /* an instruction retired */ }
+//	}
+//
+// The package is deterministic (no map-order dependence, no time, no
+// randomness, no goroutines) and keeps no package-level mutable state: every
+// Sim is independent and a parsed Design may be elaborated concurrently.
 package vsim
